@@ -20,6 +20,7 @@ import TzVerif.Proofs.Search
 import TzVerif.Proofs.SearchRule
 import TzVerif.Proofs.SpecSearch
 import TzVerif.Proofs.SrcEqFind
+import TzVerif.Generated.StableC05   -- per run: the current translation (SrcNow) equals the baseline (Src) these theorems are about
 
 namespace TzVerif.C05
 open TzVerif.Model TzVerif.Proofs
